@@ -3029,6 +3029,12 @@ evbuffer_file_segment_new(
 		length = evutil_fd_filesize(fd);
 		if (length == -1)
 			goto err;
+		/* "as much as possible" starts at 'offset', not at byte 0 */
+		if (offset > 0) {
+			if (offset > length)
+				goto err;
+			length -= offset;
+		}
 	}
 	seg->length = length;
 
